@@ -564,7 +564,10 @@ def job_isolated(job: dict) -> dict:
     except Exception as e:  # noqa: BLE001
         return {"created": "exc " + type(e).__name__, "results": [], "sha": None}
     res = [call_result(parse, rule, "".join(chr(c) for c in inp), k) for rule, inp, k in job["calls"]]
-    return {"created": "ok", "results": res, "sha": sha}
+    # the batch must not influence itself: the same calls again, in reverse order
+    again = [call_result(parse, rule, "".join(chr(c) for c in inp), k) for rule, inp, k in reversed(job["calls"])][::-1]
+    incons = [i for i, (a, b) in enumerate(zip(res, again)) if a != b and "oof" not in (a["enc"], b["enc"])]
+    return {"created": "ok", "results": res, "sha": sha, "inconsistent": incons}
 
 
 def job_threads(job: dict) -> dict:
@@ -885,10 +888,12 @@ def observed_calls(hist: dict):
 class Oracle:
     """results of isolated runs, cached by (object key, call)"""
 
-    def __init__(self):
+    def __init__(self, exact: bool = False):
+        self.exact = exact                 # one fresh process per call (used to confirm and shrink) instead of per object
         self.created: dict = {}
         self.sha: dict = {}
         self.results: dict = {}
+        self.inconsistent: dict = {}       # object key -> calls whose result changed when the batch was repeated
         self.jobs_run = 0
 
     def need(self, hists: list[dict]) -> None:
@@ -904,10 +909,11 @@ class Oracle:
                     want[key].add(call)
         jobs, keys = [], []
         for key, calls in want.items():
-            calls = sorted(calls)
-            keys.append((key, calls))
-            jobs.append({"kind": "isolated", "text": key[0], "opt": json.loads(key[1]), "via": key[2], "gen": key[3],
-                         "calls": [[r, list(inp), k] for r, inp, k in calls]})
+            batches = [[c] for c in sorted(calls)] + ([[]] if key not in self.created else []) if self.exact else [sorted(calls)]
+            for batch in batches:
+                keys.append((key, batch))
+                jobs.append({"kind": "isolated", "text": key[0], "opt": json.loads(key[1]), "via": key[2], "gen": key[3],
+                             "calls": [[r, list(inp), k] for r, inp, k in batch]})
         for (key, calls), res in zip(keys, run_jobs(jobs)):
             self.jobs_run += 1
             if "error" in res:
@@ -916,6 +922,8 @@ class Oracle:
             self.sha[key] = res["sha"]
             for c, r in zip(calls, res["results"]):
                 self.results[(key, c)] = r
+            if res.get("inconsistent"):
+                self.inconsistent.setdefault(key, []).extend(calls[i] for i in res["inconsistent"])
 
     def differences(self, hist: dict, outs: list) -> list[dict]:
         diffs = []
@@ -1180,6 +1188,19 @@ def run(out: Outcome) -> None:
         for b in bad:
             candidates.append((h, b))
 
+    for key, calls in oracle.inconsistent.items():
+        # in a fresh process, on one object, a call's result depended on the calls made before it
+        text, spec, via, gen = key
+        steps = ([{"op": "from_grammar", "id": "p1", "g": 0, "opt": json.loads(spec)}] if via == "from_grammar" else
+                 [{"op": "mapping", "id": "m0", "g": 0}, {"op": "parser", "id": "p1", "m": "m0", "opt": json.loads(spec)}])
+        if gen:
+            steps.append({"op": "generate", "id": "x1", "p": "p1"})
+        allc = sorted({c for (k2, c) in oracle.results if k2 == key})
+        for rule, inp, k in allc + allc[::-1]:
+            steps.append({"op": "parse_gen" if gen else "parse", ("x" if gen else "p"): "x1" if gen else "p1", "rule": rule, "input": list(inp), "k": k})
+        candidates.append(({"texts": [text], "steps": steps, "groups": ["synthetic: repeated batch"]},
+                           {"step": len(steps) - 1, "what": "result differs from the same call in a fresh process"}))
+    xo = Oracle(exact=True)
     reported, seen_sig = 0, set()
     by_kind = collections.Counter(signature(b) for _h, b in candidates)
     candidates.sort(key=lambda hb: (sig_rank(signature(hb[1])), len(hb[0]["steps"])))
@@ -1188,11 +1209,11 @@ def run(out: Outcome) -> None:
         if sig in seen_sig:
             continue
         seen_sig.add(sig)
-        again, _ = failing(h, oracle)                 # believed only if it fails again from the replay data
+        again, _ = failing(h, xo)                     # believed only if it fails again from the replay data
         if not any(signature(x) == sig for x in again):
             continue
-        small = compact(shrink(h, oracle, sig))
-        final, _ = failing(small, oracle)
+        small = compact(shrink(h, xo, sig))
+        final, _ = failing(small, xo)
         first = next((x for x in final if signature(x) == sig), b)
         out.violation({"kind": "history", "what": first["what"], "texts": small["texts"], "steps": small["steps"], "failure": first,
                        "history_readable": [describe(s) for s in small["steps"]], "shrunk_from": len(h["steps"]), "seed": seed(),
@@ -1263,7 +1284,7 @@ def run(out: Outcome) -> None:
         "samples": sample,
         "histories": len(ok_pairs),
         "history_steps": sum(len(h["steps"]) for h, _ in ok_pairs),
-        "isolated_processes": oracle.jobs_run,
+        "isolated_processes": oracle.jobs_run + xo.jobs_run,
         "outcomes": dict(outcome_kinds),
         "grammar_pool": dict(collections.Counter(g["name"].split(":")[0] for g in pool)),
         "thread_runs": len(tjobs), "thread_calls": int(tcalls), "thread_mismatches_not_reproduced": thread_flaky,
@@ -1300,7 +1321,7 @@ def replay(out: Outcome, payload: dict) -> None:
     out.coverage = {"explanation": "replay of one recorded case", "evaluations": 1, "distinct_nontrivial": 2, "samples": [payload.get("what", "")]}
     if payload.get("kind") == "history":
         hist = {"texts": payload["texts"], "steps": payload["steps"]}
-        bad, res = failing(hist, Oracle())
+        bad, res = failing(hist, Oracle(exact=True))
         if "error" in res:
             out.infra_error = res["error"][:300]
         elif bad:
